@@ -58,10 +58,10 @@ func (o *workerOut) flush() { o.mu.Lock(); o.w.Flush(); o.mu.Unlock() }
 func (o *workerOut) viol(idx int, sig, what string, detail map[string]interface{}) {
 	o.send(WorkerMsg{T: "viol", Idx: idx, Sig: sig, What: what, Detail: detail})
 }
-func (o *workerOut) eval(n int)                    { o.send(WorkerMsg{T: "eval", N: n}) }
-func (o *workerOut) count(k string, n int)         { o.send(WorkerMsg{T: "count", Key: k, N: n}) }
-func (o *workerOut) set(set, elem string)          { o.send(WorkerMsg{T: "set", Key: set, Sig: elem}) }
-func (o *workerOut) nontrivial(k string)           { o.send(WorkerMsg{T: "nontrivial", Key: k}) }
+func (o *workerOut) eval(n int)                      { o.send(WorkerMsg{T: "eval", N: n}) }
+func (o *workerOut) count(k string, n int)           { o.send(WorkerMsg{T: "count", Key: k, N: n}) }
+func (o *workerOut) set(set, elem string)            { o.send(WorkerMsg{T: "set", Key: set, Sig: elem}) }
+func (o *workerOut) nontrivial(k string)             { o.send(WorkerMsg{T: "nontrivial", Key: k}) }
 func (o *workerOut) sample(v map[string]interface{}) { o.send(WorkerMsg{T: "sample", Detail: v}) }
 
 type raceReport struct {
